@@ -192,7 +192,16 @@ type verifFake struct {
 	tagOf   func(cmd string, args []interface{}) int
 	onReq   func(n int) // called with the ordinal (1-based) of each incoming request before it is processed
 	nReq    int
+	// rejectAt > 0: exactly that request (1-based ordinal) is answered with an error reply and not
+	// applied (OOM, READONLY, ...); the connection stays usable
+	rejectAt int
+	// moveBatch > 0: exactly that batch execution (1-based) is refused with a MOVED redirection
+	// (nothing of it applied), as a cluster node answers for a slot it no longer owns
+	moveBatch int
+	batchRuns int
 }
+
+var verifErrReply = common.RedisError("OOM command not allowed when used memory > 'maxmemory'")
 
 var verifErrConn = errors.New("fakeredis: connection lost")
 
@@ -416,6 +425,9 @@ func (f *verifFake) request(cmd string, args []interface{}) (interface{}, error)
 		f.failAll = true
 		return nil, verifErrConn
 	}
+	if f.rejectAt > 0 && f.nReq == f.rejectAt {
+		return nil, verifErrReply
+	}
 	cmd = strings.ToLower(cmd)
 	r := verifReq{db: f.curDb, cmd: cmd, args: args, batch: f.batchN, tag: -1}
 	if f.tagOf != nil {
@@ -485,6 +497,11 @@ func (f *verifFake) Send(cmd string, args ...interface{}) error {
 	f.batchN++
 	rep, err := f.request(cmd, args)
 	if err != nil {
+		if err == error(verifErrReply) {
+			// an error reply arrives with the replies, not at send time
+			f.pending = append(f.pending, err)
+			return nil
+		}
 		return err
 	}
 	f.pending = append(f.pending, rep)
@@ -497,6 +514,9 @@ func (f *verifFake) Receive() (interface{}, error) {
 	}
 	r := f.pending[0]
 	f.pending = f.pending[1:]
+	if e, ok := r.(common.RedisError); ok {
+		return nil, e
+	}
 	return r, nil
 }
 func (f *verifFake) ReceiveString() (string, error) { return common.String(f.Receive()) }
@@ -531,6 +551,12 @@ func (b *verifBatcher) Put(cmd string, args ...interface{}) error {
 }
 func (b *verifBatcher) Len() int { return len(b.cmds) }
 func (b *verifBatcher) run() {
+	b.f.batchRuns++
+	if b.f.moveBatch > 0 && b.f.batchRuns == b.f.moveBatch {
+		b.err = errors.Join(common.ErrMove, errors.New("MOVED 1 fake:6380"))
+		b.cmds = nil
+		return
+	}
 	b.f.batchN++
 	if b.txn {
 		cmds := append([]verifBatchCmd{{"multi", nil}}, b.cmds...)
